@@ -49,6 +49,8 @@ def check (pid : String) (j : Json) : Except String Verdict := do
   let mut idx := 0
   let mut ghost : List String := []
   let mut torn := false
+  let mut current : List ((RType × String) × String) := []   -- content of the last atomic push per name
+  let mut stale : Option String := none
   for st in steps.toList do
     idx := idx + 1
     let kind := jStrD st "o" "?"
@@ -75,7 +77,37 @@ def check (pid : String) (j : Json) : Except String Verdict := do
       let expected := match w.r.s.cache rt n with | some v => s!"val:{v}" | none => "err:timeout"
       if (w.r.s.cache rt n).isNone then w := w.step cfg T (.op (.subscribe rt n)) what
       if o.get != some expected then w := { w with r := w.r.fail s!"{what}: lookup {rtStr rt}/{n}: model {expected}, impl {o.get}" }
-    | "push" => w := w.step cfg T (.op (.push (← parseResp st) now)) what
+      -- served content against the control plane's last accepted response that carried the name (kept by the script)
+      match current.find? (fun e => e.1 = (rt, n)) with
+      | some (_, v) =>
+        if (o.get.getD "").startsWith "val:" && o.get != some s!"val:{v}" && stale.isNone then
+          stale := some s!"{rtStr rt}/{n}: the control plane's current value is {v}, the lookup returned {o.get.getD "?"} (a value that is no longer current, after the newer one was accepted)"
+      | none => pure ()
+    | "getstart" =>
+      -- a lookup that misses, subscribes and waits (its caller cancels it later)
+      let rt ← match rtOfStr (jStrD st "rt" "?") with | some t => pure t | none => throw "getstart: type"
+      let n ← jStr st "n"
+      w := w.step cfg T (.op (.touch rt n now)) what
+      if (w.r.s.cache rt n).isNone then w := w.step cfg T (.op (.subscribe rt n)) what
+      else w := { w with r := w.r.fail s!"{what}: the name is cached in the model" }
+    | "getcancel" =>
+      -- the waiting lookup gives up: that concerns this caller alone (no step of the client or the cache)
+      if o.get = some "hang" then w := { w with r := w.r.fail s!"{what}: the cancelled lookup does not return" }
+      else if (o.get.getD "").startsWith "val:" then w := { w with r := w.r.fail s!"{what}: the cancelled lookup returned {o.get}" }
+    | "getresult" =>
+      let rt ← match rtOfStr (jStrD st "rt" "?") with | some t => pure t | none => throw "getresult: type"
+      let n ← jStr st "n"
+      let expected := match w.r.s.cache rt n with | some v => s!"val:{v}" | none => "err"
+      let got := match jStrD oj "get" "?" with | g => g
+      if got != expected then w := { w with r := w.r.fail s!"{what}: the waiting lookup of {rtStr rt}/{n}: model {expected}, impl {got}" }
+    | "push" =>
+      let resp ← parseResp st
+      w := w.step cfg T (.op (.push resp now)) what
+      if resp.decodes then
+        for sl in resp.slots do
+          match sl with
+          | .good k v => current := (current.filter (fun e => e.1 != (resp.rt, k))) ++ [((resp.rt, k), v)]
+          | .bad => pure ()
     | "ack" =>
       w := w.step cfg T (.recvAck (← parseResp st)) what
       let parked := jNatD oj "recvPoint" 0
@@ -88,6 +120,9 @@ def check (pid : String) (j : Json) : Except String Verdict := do
     w := { w with r := w.r.compare o oj uni what }
     for g in ghosts o do
       if !ghost.contains g then ghost := ghost ++ [g]
+  if pid = "C10" || pid = "C01" then
+    return { nontrivial := true, mismatch := w.r.mismatch,
+             specfail := stale.map (fun m => s!"{if pid = "C10" then "C10.current_endpoints" else "C01.served_eq_fold"}: {m}") }
   let spec := if ghost.isEmpty || pid = "C05" then none else
     some s!"C07.atomic_update: {",".intercalate ghost} cached but not subscribed: no sequential order of the operations reaches this state (the entry will never be updated again)"
   return { nontrivial := torn || steps.size ≥ 6, mismatch := w.r.mismatch, specfail := spec }
